@@ -72,6 +72,8 @@ def run(ctx):
            for t in ("const", "sphere_big", "sphere_small", "plateau") if not (q and c == "ball" and g == "log")]
     deg += [dict(job(D, g, m, None, seeds[0], target=t), noise_scale=0.0) for D in Ds[:2] for g in ("lin", "log") for m in ("decl", "spec") for t in ("const", "plateau", "sphere_in")]
     st = explore(deg, ["ans", "noise"], 0, sink, stats=st, name="degenerate-landscapes/b0")
+    sto = [dict(job(D, "lin", m, c, seeds[0], opts={"stobads": True}), gamma=g) for D in Ds[:2] for m in ("auto", "decl", "spec") for c in (None, "ball") for g in (None, 5.0, 50.0)]
+    st = explore(sto, ["noise"], 0, sink, stats=st, name="stobads/b0")
     # (c) budget windows above the initial design x final samples (noisy) and deterministic
     n0 = {}
     probe = [job(D, "lin", m, None, seeds[0], opts={"max_fun_evals": 90}) for m in ("auto", "decl", "spec") for D in (1, 2)]
